@@ -12,16 +12,16 @@ LEVEL = {
     "C04": ("proof", "Finite theorem C04_tables (+ supersets, Int = Signed u Unsigned, same table on shared dtypes) re-proved on every run against DTYPES tuples reflected from the running code into coq/gen/GenDtypes.v; the model of `dtype in DTYPES` validated exhaustively against real check() for every class x library x dtype kind.", "DESIGN.md 7 C04"),
     "C05": ("proof", "Theorems C05_parse_eval / C05_parse_eval_named / C05_shape_level (whole shape strings: dimensions joined by spaces, one optional multi-axis marker) / C05_source_tables (operator semantics, precedence order, operator classes and strings, identifier pattern as translated from the source text on this run): every string of the stratified grammar is accepted, parsed to the grammar's postfix program and evaluates to the arithmetic value under every identifier-keyed scope (lexer round trip, count check, shunting-yard invariant, postfix evaluation; no bound on nesting or length)." + CORR, "DESIGN.md 7 C05"),
     "C06": ("proof", "Theorems C06_source_tables (parser tables as translated from the source text on this run) / C06_accept_sound / C06_only_syntax_error / C06_no_late_error for every string (AcceptSound, ShapeSound: an accepted string consists of documented dimension forms with the grammar's postfix program, a rejection is SyntaxError, later evaluation fails only for unbound names or undefined arithmetic). Correspondence: corpus, exhaustive alphabet strings, mutations, identifier positions, noise; reference = independent recogniser." + CORR, "DESIGN.md 7 C06"),
-    "C07": ("proof", "Theorems C07_args_first / C07_return_checked / C07_value_only_after_both on the phase structure of run_call + correspondence with a side-effect log in the wrapped body: one fault in a single argument position or only in the return value." + CORR, "DESIGN.md 7 C07"),
+    "C07": ("proof", "Theorems C07_args_first / C07_return_checked / C07_value_only_after_both on the phase structure of run_call + correspondence with a side-effect log in the wrapped body: one fault in a single argument position or only in the return value (a changed provider value counts), 40% of the cases after an earlier conforming call of the same decorated function." + CORR, "DESIGN.md 7 C07"),
     "C08": ("proof", "Theorems C08_first_failing_tensor / C08_tensor_report / C08_axis_report / C08_only_dltype_or_arithmetic (Reports, NoCrash: what a rejection asserts is true of the named tensor under the bindings established before it; the only non-DLType exceptions are the arithmetic ones = known finding K1). Correspondence: single-fault reports field by field, multi-fault factuality." + CORR, "DESIGN.md 7 C08"),
     "C09": ("proof", "Theorems C09_history_isolated / C09_calls_commute / C09_decoration_order / C09_lazy_resolution_is_eager (hints resolved at the first call and kept per function: Lazy.v) / C09_nested_calls_isolated (bodies that make checked calls, recursion: Nested.v) over World.v (alias-shared annotation objects, provider-owned mappings) for the repaired semantics, machine-checked refutations for the legacy one. Correspondence: families sharing aliases and long-lived provider dicts, random decoration order, 8-thread runs, nested calls; thread interleavings are tested, not proved." + CORR, "DESIGN.md 7 C09"),
-    "C10": ("proof", "Theorems C10_none_skipped / C10_non_optional_none / C10_present_value_as_under_T / C10_general_union / C10_union_refused_at_decoration + correspondence on contexts rich in optional hints (five spellings) and None patterns." + CORR, "DESIGN.md 7 C10"),
-    "C11": ("proof", "Theorems C11_elementwise / C11_one_element_tuple / C11_plain_positions_ignored / C11_element_names + correspondence on tuple hints of length 1-3 with plain positions, as parameter and return; reported element names compared." + CORR, "DESIGN.md 7 C11"),
+    "C10": ("proof", "Theorems C10_none_skipped / C10_non_optional_none / C10_present_value_as_under_T / C10_general_union / C10_union_refused_at_decoration / C10_optional_tuple_is_the_tuple + correspondence on contexts rich in optional hints (five spellings, Optional[tuple[...]] with a present value) and None patterns." + CORR, "DESIGN.md 7 C10"),
+    "C11": ("proof", "Theorems C11_elementwise / C11_one_element_tuple / C11_plain_positions_ignored / C11_element_names + correspondence on tuple hints of length 1-3 with plain positions (holding opaque, iterable and tuple-valued objects), as parameter and return; reported element names compared." + CORR, "DESIGN.md 7 C11"),
     "C12": ("proof", "Theorems C12_prebind / C12_provided_sizes_belong_to_the_assignment / C12_bad_provider / C12_self_needs_method / C12_consulted_every_call + histories with changing provider values (fresh / long-lived dict, rebinding / in place), self providers, objects without the protocol." + CORR, "DESIGN.md 7 C12"),
     "C13": ("proof", "Theorems C13_identity / C13_explicit_wins / C13_environment for every environment string, enabled argument and decorator kind + every combination of DLTYPE_DISABLE x DLTYPE_DEBUG_MODE x logging level in fresh interpreters on a fixed corpus; pydantic-settings' bool table is trusted and probed.", "DESIGN.md 7 C13"),
-    "C14": ("proof", "Theorems C14_class_forms_queue_like_functions / C14_pydantic_is_one_context / C14_field_validation_is_assert_one + the same field list rendered as function, dataclass, NamedTuple and pydantic model with shuffled keyword order." + CORR, "DESIGN.md 7 C14"),
+    "C14": ("proof", "Theorems C14_class_forms_queue_like_functions / C14_pydantic_is_one_context / C14_field_validation_is_assert_one / C14_keyword_order_irrelevant_{function,class_forms,pydantic} + the same field list rendered as function, dataclass, NamedTuple and pydantic model with shuffled keyword order." + CORR, "DESIGN.md 7 C14"),
     "C15": ("proof", "Finite theorem C15_shared_dtypes_library_independent over the regenerated tables + structural theorems C15_relabelling_changes_nothing / C15_queue_level (Relabel.v: a checked call reads arrays only through shape and the class tables' answers). Correspondence: every context under three library assignments and once with arrays produced another way (layouts, strides, flags, subclasses, torch Parameter / meta, jax tracers) + exhaustive class x shared dtype x library sweep." + CORR, "DESIGN.md 7 C15"),
-    "C16": ("proof", "PARTIAL. Proved: C16_exception_passthrough, C16_value_passthrough. Name/doc/signature, argument forwarding for 9 signature shapes, exception identity, method kinds, NamedTuple / 7 dataclass option sets (fields, equality, repr, isinstance, immutability, pickling) are CPython object-model behaviour without decision logic: compared against undecorated twins (a test, labelled as such).", "DESIGN.md 7 C16"),
+    "C16": ("proof", "PARTIAL. Proved: C16_exception_passthrough, C16_value_passthrough. Name/doc/signature, argument forwarding for 9 signature shapes, exception identity for every built-in exception class, method kinds, NamedTuple / 7 dataclass option sets (fields, equality, repr, isinstance, immutability, pickling) are CPython object-model behaviour without decision logic: compared against undecorated twins (a test, labelled as such).", "DESIGN.md 7 C16"),
     "C17": ("proof", "PARTIAL. Theorems C17_field_order / C17_fresh_context_per_validation / C17_optional_none_skipped / C17_class_definition / C17_assignment_refuted (= known finding K2) + histories of constructions / model_validate / assignments, nested models, validation context= dicts, 456 class definitions against the model of the class-definition dtype cross-check; model_dump / iteration / repr compared by the harness only." + CORR, "DESIGN.md 7 C17"),
     "C18": ("proof", "Theorems C18_symbolic, C18_shape, C18_constant_axes_refused (operand dispatch: TypeError exactly for ConstantAxis / AnonymousAxis operands), C18_source_tables (whole Shape[...] incl. ConstantAxis / AnonymousAxis: accepted by parse_shape, every dimension means what its axis means): for every tree Python's operators can build (constants of either sign; a negative one prints as (0-n)) the printed string is accepted and evaluates to the tree's own arithmetic value (SymbolicProof.embed_correct + decimal round trip + C05). Correspondence: trees built by Python's evaluation of generated source; demanded size vs plain integer evaluation." + CORR, "DESIGN.md 7 C18"),
     "C19": ("proof", "PARTIAL. Theorems C19_wrapper_transparent and C19_capture_equal (under the Section hypothesis capture_extensional about torch, named in the trusted base). torch.jit.trace / script / compile are runtime behaviour the model cannot exhibit: tested on 9 modules (three kinds of scope provider among them) against undecorated twins (quick: eager, trace, script; thorough adds torch.compile); a scripted module that is its own provider without exporting get_dltype_scope is the listed known finding K3.", "DESIGN.md 7 C19"),
